@@ -302,10 +302,15 @@ func gstmt1(s ast.Stmt) string {
 						// in the codec functions `x = append(x, e)` keeps `e` as a typed tree
 						typedAppend := isId && id.Name == "append" && !c.Ellipsis.IsValid() && gstmtTypedAppend[gstmtCur]
 						if typedAppend || !(isId && (id.Name == "len" || id.Name == "append" || id.Name == "make")) {
-							var args []string
+							var args, pre []string
 							for _, a := range c.Args {
-								args = append(args, gexpr(a))
+								if gRich && gstmtRichArgs[gstmtCur] {
+									args = append(args, richArg(a, &pre))
+								} else {
+									args = append(args, gexpr(a))
+								}
 							}
+							out = append(out, pre...)
 							out = append(out, fmt.Sprintf("(.bindCall [%s] %s [%s])", leanStr(srcText(x.Lhs[i])), leanStr(exprStr(c.Fun)), strings.Join(args, ", ")))
 							continue
 						}
@@ -498,6 +503,8 @@ var gstmtFuncs = map[string]bool{
 	"cli.main": true, "cli.parseUint16": true, "cli.parseInt16": true, "cli.parseUint32": true, "cli.parseInt32": true, "cli.parseFloat32": true,
 	"cli.parseUint64": true, "cli.parseInt64": true, "cli.parseFloat64": true, "cli.parseAddressAndQuantity": true, "cli.parseUnitId": true, "cli.parseHexBytes": true,
 	"crc.init": true, "crc.add": true, "crc.value": true, "crc.isEqual": true,
+	"uint32ToBytes": true, "uint64ToBytes": true, "float32ToBytes": true, "float64ToBytes": true,
+	"bytesToUint32s": true, "bytesToUint64s": true, "bytesToFloat32s": true, "bytesToFloat64s": true,
 	"uint16ToBytes": true, "bytesToUint16": true, "encodeBools": true, "decodeBools": true, "bytesToUint16s": true, "uint16sToBytes": true,
 }
 
@@ -518,7 +525,13 @@ var gstmtRichFuncs = map[string]bool{
 	"ModbusClient.WriteUint64s": true, "ModbusClient.WriteFloat64s": true, "ModbusClient.writeBytes": true,
 	"ModbusServer.handleTransport": true,
 	"tcpTransport.assembleMBAPFrame": true, "rtuTransport.assembleRTUFrame": true,
+	// the 32 / 64-bit codecs (word order on top of encoding/binary)
+	"uint32ToBytes": true, "uint64ToBytes": true, "float32ToBytes": true, "float64ToBytes": true,
+	"bytesToUint32s": true, "bytesToUint64s": true, "bytesToFloat32s": true, "bytesToFloat64s": true,
 }
+// functions whose plain calls also get their arguments expanded (byte literals, slice expressions)
+var gstmtRichArgs = map[string]bool{"bytesToUint32s": true, "bytesToUint64s": true, "bytesToFloat32s": true, "bytesToFloat64s": true,
+	"uint32ToBytes": true, "uint64ToBytes": true, "float32ToBytes": true, "float64ToBytes": true}
 var gstmtsRich = map[string]string{}
 
 func isByteSliceLit(e ast.Expr) (*ast.CompositeLit, bool) {
@@ -565,6 +578,20 @@ func richArg(e ast.Expr, pre *[]string) string {
 		tmp := fmt.Sprintf("#arg%d", gRichN)
 		gRichN++
 		*pre = append(*pre, fmt.Sprintf("(.bindCall [%s] \"bytes\" [%s])", leanStr(tmp), strings.Join(args, ", ")))
+		return fmt.Sprintf("(.var %s .other)", leanStr(tmp))
+	}
+	// x[lo:hi] (two-index slice expression): the bounds stay typed expressions
+	if se, ok := e.(*ast.SliceExpr); ok && !se.Slice3 {
+		lo, hi := "(.lit 0 .int)", fmt.Sprintf("(.var %s .int)", leanStr("len("+srcText(se.X)+")"))
+		if se.Low != nil {
+			lo = gexpr(se.Low)
+		}
+		if se.High != nil {
+			hi = gexpr(se.High)
+		}
+		tmp := fmt.Sprintf("#arg%d", gRichN)
+		gRichN++
+		*pre = append(*pre, fmt.Sprintf("(.bindCall [%s] \"slice\" [%s, %s, %s])", leanStr(tmp), gexpr(se.X), lo, hi))
 		return fmt.Sprintf("(.var %s .other)", leanStr(tmp))
 	}
 	return gexpr(e)
